@@ -26,5 +26,6 @@ CONSTANTS
   PostMayFail = FALSE
   StopHooksMayFail = FALSE
   DrainOnClose = FALSE
+  ReportBeforeRelease = FALSE
 SPECIFICATION Spec
-INVARIANTS TypeOK SerialFifo Conservation HandlingOnlyWhileRunning HookOrder CallSound RegistrySound SupervisionSound GroupExactlyOne GroupLockSound
+INVARIANTS TypeOK SerialFifo Conservation HandlingOnlyWhileRunning HookOrder CallSound RegistrySound FailedStartFreesName SupervisionSound GroupExactlyOne GroupLockSound GroupTriesEachOnce
